@@ -80,6 +80,10 @@ def check_object_eq(F, rep, rule, heap_types):
                 continue
             r = p.env.get('_0')
             ok = False
+            if var == 'Array':
+                # equality of arrays is unspecified (DESIGN 4.3 item 5): any non-crashing answer is accepted here
+                rep.good(rule, name, 'arm Array (unspecified)', 'returns %s' % show(r)[:80], fn.loc(), nontrivial=False)
+                continue
             if var in heap_types:
                 if is_binop(r, 'Eq') and r[4] == 'f64':
                     a, b = r[2], r[3]
